@@ -293,6 +293,31 @@ class EscapeAnalysis:
         self.call_sites += 1
         propagate(node, self.escapes(m, cls, {}, depth + 1))
 
+    def _datetime_like(self, fn: FuncInfo, e: ast.expr) -> bool:
+        """Is `e` a datetime built from client text: a local assigned from parsedate_to_datetime()/datetime.strptime()/fromisoformat()
+        (possibly through .replace()), or such a call itself?"""
+        makers = ("email.utils.parsedate_to_datetime", "datetime.datetime.strptime", "datetime.datetime.fromisoformat", "datetime.datetime.fromtimestamp")
+
+        def made(x: ast.expr, depth: int = 0) -> bool:
+            if depth > 4:
+                return False
+            if isinstance(x, ast.Call):
+                r = self.p.resolve_call(fn, x)
+                if isinstance(r, tuple) and r[0] == "ext" and r[1] in makers:
+                    return True
+                if isinstance(x.func, ast.Attribute) and x.func.attr in ("replace", "astimezone"):
+                    return made(x.func.value, depth + 1)
+                return False
+            if isinstance(x, ast.Name):
+                for n in ast.walk(fn.node):
+                    if isinstance(n, ast.Assign) and any(isinstance(t, ast.Name) and t.id == x.id for t in n.targets) and made(n.value, depth + 1):
+                        return True
+                    if isinstance(n, ast.AnnAssign) and isinstance(n.target, ast.Name) and n.target.id == x.id and n.value is not None and made(n.value, depth + 1):
+                        return True
+            return False
+
+        return made(e)
+
     # ----------------------------------------------------------- fact table
     def _facts_call(self, fn: FuncInfo, call: ast.Call, T, add) -> None:
         f = call.func
@@ -356,6 +381,20 @@ class EscapeAnalysis:
             add(call, "ValueError", "parsedate_to_datetime() of client text", "fact")
             add(call, "OverflowError", "parsedate_to_datetime() of client text: a year such as 99999999999999999999 raises OverflowError (an ArithmeticError, not a ValueError)", "fact")
             return
+        if ext in ("urllib.parse.parse_qsl", "urllib.parse.parse_qs") and call.args and T(call.args[0]):
+            lim = next((k.value for k in call.keywords if k.arg == "max_num_fields"), call.args[5] if len(call.args) > 5 else None)
+            if lim is not None and not (isinstance(lim, ast.Constant) and lim.value is None):
+                self.fact_points += 1
+                add(call, "ValueError", f"{ext.split('.')[-1]}(<client text>, max_num_fields=...) raises ValueError when the client sends more pairs than the limit", "fact")
+            strict = next((k.value for k in call.keywords if k.arg == "strict_parsing"), None)
+            if strict is not None and not (isinstance(strict, ast.Constant) and not strict.value):
+                self.fact_points += 1
+                add(call, "ValueError", f"{ext.split('.')[-1]}(<client text>, strict_parsing=True) raises ValueError for a pair without '='", "fact")
+            return
+        if isinstance(f, ast.Attribute) and f.attr in ("astimezone", "timestamp", "utctimetuple", "utcoffset") and T(f.value) and self._datetime_like(fn, f.value):
+            self.fact_points += 1
+            add(call, "OverflowError", f"datetime.{f.attr}() of a client-chosen date shifts it by its UTC offset: year 1 / year 9999 dates with an offset leave the representable range (OverflowError)", "fact")
+            return
         if ext in ("os.path.realpath", "os.lstat", "os.readlink", "os.path.getsize", "os.path.getmtime", "os.path.samefile", "os.chdir", "os.access") and call.args:
             t = T(call.args[0])
             if t:
@@ -389,7 +428,10 @@ class EscapeAnalysis:
             root = base
             while isinstance(root, ast.Attribute):
                 root = root.value
-            gateway = isinstance(root, ast.Name) and root.id in ("scope", "environ", "message", "msg", "event") or ast.unparse(base) in ("self._scope", "self._environ", "self")
+            # a gateway object (the scope / environ parameter, a message returned by receive()) has the keys the server
+            # guarantees; recognised by provenance, not by what the local is called
+            gateway = isinstance(root, ast.Name) and root.id in ("scope", "environ") and root.id in fn.params or ast.unparse(base) in ("self._scope", "self._environ", "self") \
+                or all(o == "receive()" for o in T(base))
             if not gateway:
                 key = node.slice.value
                 bt = ast.unparse(base)
